@@ -23,6 +23,15 @@ func zzVal(name string) []byte {
 	return v
 }
 
+// zzValOpt: like zzVal, or the empty value (an attribute written as a="").
+func zzValOpt(name string) []byte {
+	v := zz.NondetBytes(name, 1)
+	for _, c := range v {
+		zz.Assume(zz.ByteIn(c, "12"))
+	}
+	return v
+}
+
 func zzLeafX() *zzX { return &zzX{name: "x", kids: []*zzX{{text: zzVal("xv")}}} }
 
 // zzT: one of five record shapes: <T><x>v</x></T>, with attribute a, with a nested T (a
@@ -249,7 +258,7 @@ func zzNsDoc() *zzX {
 		c1.prefix, c1.uri = "p", uriB
 	}
 	if zz.NondetBool("c1attr") {
-		c1.attrs = append(c1.attrs, [2]interface{}{"a", zzVal("a1")})
+		c1.attrs = append(c1.attrs, [2]interface{}{"a", zzValOpt("a1")})
 	}
 	root.kids = append(root.kids, c1)
 	if zz.NondetBool("mixed") {
@@ -484,4 +493,47 @@ func C03XmlBytes() {
 		sp.Release(n)
 	}
 	zz.Fail("no terminal result within L+2 reads")
+}
+
+// C09XmlCuts: the XML stream reader (real encoding/xml) gives the same transcript — records,
+// their content, the terminal error or EOF — whether the bytes arrive in one Read or cut at
+// arbitrary positions: (a) the document family of C04/C16 with symbolic values, (b) arbitrary
+// bytes (mostly malformed) over the XML alphabet.
+func C09XmlCuts() {
+	var in []byte
+	xp := "/R/T"
+	reads := 0
+	if zz.NondetBool("arbitraryBytes") {
+		L := zz.Param("L", 4)
+		in = zz.NondetBytes("in", L)
+		for _, b := range in {
+			zz.Assume(zz.ByteIn(b, "<>/a =\"&;x"))
+		}
+		xp = []string{"/a", "//a"}[zz.NondetChoice("xpath", 2)]
+		reads = L + 2
+	} else {
+		K := zz.Param("K", 2)
+		in = zzDoc(K).write(nil)
+		reads = K + 2
+	}
+	zz.Assume(len(in) >= 2)
+	one, err := NewXMLStreamReader(&zzChunkReader{data: in, failAt: -1}, xp)
+	zz.Assume(err == nil)
+	cut, err := NewXMLStreamReader(&zzChunkReader{data: append([]byte{}, in...), failAt: -1, cuts: zzCuts(zz.Param("CUTS", 2), len(in))}, xp)
+	zz.Assume(err == nil)
+	for i := 0; i < reads; i++ {
+		n1, e1 := one.Read()
+		n2, e2 := cut.Read()
+		zz.Assert((e1 == nil) == (e2 == nil), "same kind of result whatever the chunking")
+		if e1 != nil || e2 != nil {
+			zz.Cover("terminal")
+			zz.Assert((e1 == io.EOF) == (e2 == io.EOF), "EOF under one chunking is EOF under every chunking")
+			return
+		}
+		zz.Cover("record")
+		zz.Assert(zzSer(n1) == zzSer(n2), "same record whatever the chunking")
+		one.Release(n1)
+		cut.Release(n2)
+	}
+	zz.Fail("no terminal result within the read bound")
 }
